@@ -36,6 +36,7 @@ type stats struct {
 	exactChecked, removeWithSub, removeStarSurvives, resetSeen, staticRound, dynamicRound      bool
 	modelAmbiguous, backdated, richNames, sleptWithACL, parkedInsideFeed, removeReaddRace      bool
 	startedWhileInsideFeed, mixedEnc, nilPath, perPathOrigins, rpcDeadline, walkParkedInInsert bool
+	aclFlipped                                                                                 bool
 	skippedSteps, maxBulk, maxOnceLeaves                                                       int
 }
 
@@ -84,6 +85,7 @@ func (s *stats) labels() []string {
 	add(s.backdated, "backdated-notification")
 	add(s.richNames, "names-with-common-string-prefix-or-slash")
 	add(s.sleptWithACL, "quiet-period-with-acl")
+	add(s.aclFlipped, "grant-changed-while-streams-were-open")
 	add(s.maxBulk > 32, "bulk-update>32")
 	add(s.maxBulk > 64, "bulk-update>64")
 	add(s.maxBulk > 256, "bulk-update>256")
@@ -119,11 +121,20 @@ func (f *failure) Error() string { return f.prop + ": " + f.msg }
 type aclDouble struct {
 	spec    *ACLSpec
 	targets int
+	// the table can change while streams are open (aclflip steps): flips[i] toggles (user, target) from step on
+	mu    sync.Mutex
+	flips []aclFlip
+	step  func() int
 }
 
+type aclFlip struct{ step, user, target int }
+
+// rpcACL keeps the context it was created with, as a backend does that looks grants up per check:
+// once that context is done it fails closed.
 type rpcACL struct {
 	a    *aclDouble
 	user int
+	ctx  context.Context
 }
 
 func (a *aclDouble) NewRPCACL(ctx context.Context) (subscribe.RPCACL, error) {
@@ -135,7 +146,7 @@ func (a *aclDouble) NewRPCACL(ctx context.Context) (subscribe.RPCACL, error) {
 		}
 		return nil, aclError(kind)
 	}
-	return &rpcACL{a, u}, nil
+	return &rpcACL{a, u, ctx}, nil
 }
 
 // aclError builds the error value an ACL backend may fail with: whatever it is or carries,
@@ -166,15 +177,43 @@ func (okStatusError) GRPCStatus() *status.Status { return status.New(codes.OK, "
 
 func (a *aclDouble) Check(string, string) bool { return true }
 
-func (r *rpcACL) Check(target string) bool { return r.a.allowed(r.user, target) }
+func (r *rpcACL) Check(target string) bool {
+	if r.ctx.Err() != nil {
+		return false
+	}
+	return r.a.allowed(r.user, target)
+}
 
+// allowed is the grant as of now; allowedAt as of a scenario step.
 func (a *aclDouble) allowed(user int, target string) bool {
+	st := 1 << 30
+	if a.step != nil {
+		st = a.step()
+	}
+	return a.allowedAt(user, target, st)
+}
+
+func (a *aclDouble) allowedAt(user int, target string, step int) bool {
 	for i := 0; i < a.targets; i++ {
 		if targetName(i) == target {
-			return user < len(a.spec.Allow) && i < len(a.spec.Allow[user]) && a.spec.Allow[user][i]
+			ok := user < len(a.spec.Allow) && i < len(a.spec.Allow[user]) && a.spec.Allow[user][i]
+			a.mu.Lock()
+			for _, f := range a.flips {
+				if f.user == user && f.target == i && f.step <= step {
+					ok = !ok
+				}
+			}
+			a.mu.Unlock()
+			return ok
 		}
 	}
 	return false
+}
+
+func (a *aclDouble) flipped() bool {
+	a.mu.Lock()
+	defer a.mu.Unlock()
+	return len(a.flips) > 0
 }
 
 // ---- world ----------------------------------------------------------------------------------
@@ -1062,7 +1101,7 @@ func (w *world) body() {
 		sopts = append(sopts, subscribe.WithTimeout(time.Duration(sc.TimeoutSec)*time.Second))
 	}
 	if sc.ACL != nil {
-		w.acl = &aclDouble{sc.ACL, sc.Targets}
+		w.acl = &aclDouble{spec: sc.ACL, targets: sc.Targets, step: w.curStep}
 		sopts = append(sopts, subscribe.WithACL(w.acl))
 	}
 	srv, err := subscribe.NewServer(w.c, sopts...)
@@ -1123,6 +1162,15 @@ func (w *world) body() {
 			w.stepRemoveReadd(st)
 		case "wrace":
 			w.stepWalkRace(st)
+		case "aclflip":
+			// a grant is given or revoked while streams are open; from here on only the trace monitor
+			// (nothing denied at the time it was sent) judges ACL scenarios, convergence is not defined
+			if w.acl != nil && len(w.sc.ACL.Allow) > 0 && w.sc.ACL.Dynamic {
+				w.acl.mu.Lock()
+				w.acl.flips = append(w.acl.flips, aclFlip{w.step, st.Sub % len(w.sc.ACL.Allow), st.N % w.sc.Targets})
+				w.acl.mu.Unlock()
+				w.st.aclFlipped = true
+			}
 		case "check":
 			synctest.Wait()
 			w.noteProgress()
@@ -1559,8 +1607,10 @@ func (w *world) monitorSends() {
 			}
 			tgt := n.GetPrefix().GetTarget()
 			if w.acl != nil {
-				if !w.acl.allowed(s.spec.User, tgt) {
-					w.failf("C07", "step %d: subscription %d (user %d) was sent a response for target %q which its ACL denies: %v", w.step, s.i, s.spec.User, tgt, n)
+				// the grant is judged as of the step in which the server handed the response to Send (a Send
+				// that blocks passes later); a flip takes effect for everything handed over in later steps
+				if !w.acl.allowedAt(s.spec.User, tgt, o.call) && !w.acl.allowedAt(s.spec.User, tgt, o.call-1) {
+					w.failf("C07", "step %d: subscription %d (user %d) was handed, during step %d, a response for target %q which its ACL denied at that time: %v", w.step, s.i, s.spec.User, o.call, tgt, n)
 				}
 			}
 			if s.target != "*" && tgt != s.target {
@@ -1600,7 +1650,7 @@ func (w *world) monitorSends() {
 				if len(out) > 0 || s.stream.sendCalls > 0 {
 					w.failf("C07", "subscription %d: unauthenticated RPC was sent %d responses", s.i, len(out))
 				}
-			case s.target != "*" && !w.acl.allowed(u, s.target):
+			case s.target != "*" && !w.acl.allowedAt(u, s.target, s.startStep):
 				w.st.deniedSingle = true
 				if s.retErr == nil {
 					w.failf("C07", "subscription %d: single target %s is denied for user %d but the RPC returned nil", s.i, s.target, u)
@@ -1719,6 +1769,9 @@ func diffMaps(want, got map[string]string) string {
 // checkAll evaluates the per-subscription oracles at a quiescent point.
 // drained: every gate was released and every subscriber given credit.
 func (w *world) checkAll(drained bool) {
+	if w.acl != nil && w.acl.flipped() {
+		return // grants changed while streams were open: only the trace monitor applies (see aclflip)
+	}
 	for _, s := range w.subs {
 		if !s.started {
 			continue
